@@ -50,6 +50,7 @@ pub fn entrait_for_single_fn(attr: &EntraitFnAttr, input_fn: InputFn) -> syn::Re
         trait_dependency_mode: &trait_dependency_mode,
         sub_attributes: &sub_attributes,
         unsafety: None,
+        associated_types: &[],
     }
     .gen_trait_def(
         &attr.trait_visibility,
@@ -127,6 +128,7 @@ pub fn entrait_for_mod(attr: &EntraitFnAttr, input_mod: InputMod) -> syn::Result
         trait_dependency_mode: &trait_dependency_mode,
         sub_attributes: &sub_attributes,
         unsafety: None,
+        associated_types: &[],
     }
     .gen_trait_def(
         &attr.trait_visibility,
